@@ -11,7 +11,7 @@
     implies ([C18_uniq_ts_*]). *)
 From Coq Require Import List NArith Bool.
 From NoKV Require Import Base.Bytes Model.Percolator Model.KvApply Spec.PercoSpec
-  Proofs.PercoProofs Proofs.PercoInvProofs.
+  Proofs.PercoProofs Proofs.PercoInvProofs Proofs.PercoIdemProofs.
 Import ListNotations.
 Local Open Scope N_scope.
 
@@ -105,3 +105,36 @@ Theorem C18_commit_final_nonvacuous :
   Forall (req_keeps 20 10) h2.
 Proof. exact commit_final_nonvacuous. Qed.
 Print Assumptions C18_commit_final_nonvacuous.
+
+(** A request (with pairwise distinct keys) applied twice in a row leaves the
+    logical state as after the first application ... *)
+Theorem C18_idempotent_state : forall a r,
+  req_ok r = true -> req_nodup r -> Inv2 a ->
+  aeq (fst (lstep (fst (lstep a r)) r)) (fst (lstep a r)).
+Proof. exact lstep_idem. Qed.
+Print Assumptions C18_idempotent_state.
+
+(** ... hence every GET and every reported lock of the model is the same
+    after [h ++ [r; r]] as after [h ++ [r]]. *)
+Theorem C18_idempotent : forall h r k t,
+  forallb req_ok (h ++ [r]) = true -> req_nodup r ->
+  handle_get current (apply_all current (h ++ [r; r])) k t = handle_get current (apply_all current (h ++ [r])) k t /\
+  get_lock (apply_all current (h ++ [r; r])) k = get_lock (apply_all current (h ++ [r])) k.
+Proof. exact repeat_changes_nothing. Qed.
+Print Assumptions C18_idempotent.
+
+Theorem C18_idempotent_nonvacuous :
+  forallb req_ok (wit_f18 ++ [RCommit [B1 97] 10 20]) = true /\ req_nodup (RCommit [B1 97] 10 20).
+Proof. exact repeat_nonvacuous. Qed.
+Print Assumptions C18_idempotent_nonvacuous.
+
+(** Re-applying an *older* part of the command log is not harmless on the
+    working tree: a re-applied prewrite overwrites its own lock and resets the
+    MinCommitTs a reader had pushed (observation, see the report; no read
+    result changes). *)
+Theorem C18_reapply_prefix_refuted :
+  forallb req_ok (wit_reapply ++ firstn 1 wit_reapply) = true /\
+  option_map l_min_commit (get_lock (apply_all current wit_reapply) (B1 97)) = Some 51 /\
+  option_map l_min_commit (get_lock (apply_all current (wit_reapply ++ firstn 1 wit_reapply)) (B1 97)) = Some 0.
+Proof. exact reapply_prefix_refuted. Qed.
+Print Assumptions C18_reapply_prefix_refuted.
